@@ -50,6 +50,12 @@ impl Koto {
         }
     }
 
+    /// Verification-only access to the underlying VM
+    #[cfg(koto_verif)]
+    pub fn verif_vm(&mut self) -> &mut KotoVm {
+        &mut self.runtime
+    }
+
     /// Returns a reference to the runtime's prelude
     pub fn prelude(&self) -> &KMap {
         self.runtime.prelude()
